@@ -919,7 +919,57 @@ func (p *pipeGen) unicodePurgeCase() {
 	p.op("pipe get msg %s,1,1,f -", presTok(pr[1]))
 }
 
+// genExhaustive is the seed-independent part: every octet value as label
+// content through both key families and the wire/presentation comparator, and
+// every prefix length of both address families.
+func genExhaustive(emit func(string)) int {
+	emit("key new")
+	n := 1
+	for b := 0; b < 256; b++ {
+		emit(fmt.Sprintf("key of w:%s,1,1,f,-", vlib.Hex([]byte{1, byte(b), 0})))
+		emit(fmt.Sprintf("key of w:%s,28,1,t,4:c0000200/24", vlib.Hex([]byte{3, 'A', byte(b), 'z', 2, 'M', byte(b), 0})))
+		n += 2
+	}
+	for bits := 0; bits <= 32; bits++ {
+		emit(fmt.Sprintf("key of w:03777777076578616d706c6500,1,1,f,4:ffffffff/%d", bits))
+		emit(fmt.Sprintf("key of w:03777777076578616d706c6500,1,1,f,4:a5a5a5a5/%d", bits))
+		n += 2
+	}
+	for bits := 0; bits <= 128; bits++ {
+		emit(fmt.Sprintf("key of w:03777777076578616d706c6500,1,1,f,6:ffffffffffffffffffffffffffffffff/%d", bits))
+		n++
+	}
+	emit("ver new")
+	for b := 0; b < 256; b++ {
+		w := []byte{2, byte(b), 'Q', 0}
+		dec := parseName("w:" + vlib.Hex(w)).pres
+		// the same name in the other ASCII case …
+		other := []byte(dec)
+		for i, c := range other {
+			if c >= 'a' && c <= 'z' || c >= 'A' && c <= 'Z' {
+				other[i] = c ^ 0x20
+			}
+		}
+		emit(fmt.Sprintf("ver wname w:%s %s", vlib.Hex(w), presTok(string(other))))
+		// … and the octet 0x20 away, which is a different name unless it is a letter
+		w2 := []byte{2, byte(b) ^ 0x20, 'Q', 0}
+		emit(fmt.Sprintf("ver wname w:%s %s", vlib.Hex(w2), presTok(dec)))
+		emit(fmt.Sprintf("ver wfold w:%s w:%s", vlib.Hex(w), vlib.Hex(w2)))
+		n += 3
+	}
+	for bits := 0; bits <= 32; bits++ {
+		emit(fmt.Sprintf("ver norm 4:ffffffff/%d", bits))
+		n++
+	}
+	for bits := 0; bits <= 128; bits += 1 {
+		emit(fmt.Sprintf("ver norm 6:ffffffffffffffffffffffffffffffff/%d", bits))
+		n++
+	}
+	return n
+}
+
 func gen(r *vlib.R, n int, tier string, emit func(string)) {
+	n -= genExhaustive(emit)
 	sweep := int(r.U64() % 256)
 	p := &pipeGen{r: r, emit: emit}
 	for n > 0 {
